@@ -184,7 +184,7 @@ def h_step(access: str, anon0: int, c0: int, c1: int) -> bool:
 # ---------------------------------------------------------------------------------------------
 
 QUALS = ["virtual", "const", "volatile", "noexcept", "override", "final", "ref", "tail"]
-TAILS = [None, "pure", "default", "delete", "body", "trailing"]
+TAILS = [None, "pure", "default", "delete", "body", "trailing", "throw-empty", "throw-list"]
 
 
 def render_method(flags, tail, refq):
@@ -196,20 +196,24 @@ def render_method(flags, tail, refq):
         s += " volatile"
     if refq:
         s += " " + refq
-    if flags["noexcept"]:
+    if flags["noexcept"] and tail not in ("throw-empty", "throw-list"):
         s += " noexcept"
+    if tail == "throw-empty":
+        s += " throw()"
+    if tail == "throw-list":
+        s += " throw(E1, E2)"
     if tail == "trailing":
         s += " -> int"
     if flags["override"]:
         s += " override"
     if flags["final"]:
         s += " final"
-    s += {None: ";", "pure": " = 0;", "default": " = default;", "delete": " = delete;", "body": " { return 1; }", "trailing": ";"}[tail]
+    s += {None: ";", "pure": " = 0;", "default": " = default;", "delete": " = delete;", "body": " { return 1; }", "trailing": ";", "throw-empty": ";", "throw-list": ";"}[tail]
     return s
 
 
 def expected_method(flags, tail, refq, access):
-    from cxxheaderparser.types import Method, Type, PQName, NameSpecifier, FundamentalSpecifier, Parameter, Value
+    from cxxheaderparser.types import Method, Type, PQName, NameSpecifier, FundamentalSpecifier, Parameter, Value, Token
 
     return Method(
         return_type=Type(PQName([FundamentalSpecifier("int")])),
@@ -217,7 +221,8 @@ def expected_method(flags, tail, refq, access):
         parameters=[Parameter(type=Type(PQName([FundamentalSpecifier("int")])), name="a")],
         access=access,
         virtual=flags["virtual"], const=flags["const"], volatile=flags["volatile"],
-        noexcept=Value([]) if flags["noexcept"] else None,
+        noexcept=Value([]) if (flags["noexcept"] and tail not in ("throw-empty", "throw-list")) else None,
+        throw=(Value([]) if tail == "throw-empty" else Value([Token("E1"), Token(","), Token("E2")]) if tail == "throw-list" else None),
         override=flags["override"], final=flags["final"], ref_qualifier=refq,
         pure_virtual=(tail == "pure"), default=(tail == "default"), deleted=(tail == "delete"),
         has_body=(tail == "body"), has_trailing_return=(tail == "trailing"),
